@@ -137,7 +137,9 @@ func resourceThreshold(nodeCapacity corev1.ResourceList, resourceName corev1.Res
 		// A threshold is in percentages but in <0;100> interval.
 		// Performing `threshold * 0.01` will convert <0;100> interval into <0;1>.
 		// Multiplying it with capacity will give fraction of the capacity corresponding to the given resource threshold in Quantity units.
-		return int64(float64(threshold) * 0.01 * float64(resourceNodeCapacity))
+		// Multiply first: threshold*0.01 is not exact in binary floating point (29*0.01, 58*0.01 are
+		// below the true value), which made e.g. 29% of 100 come out as 28.
+		return int64(float64(threshold) * float64(resourceNodeCapacity) / 100)
 	}
 
 	resourceCapacityQuantity := nodeCapacity[resourceName]
